@@ -34,7 +34,38 @@ def _variants(prop):
     return out
 
 
-def _edits(v):
+def reverse_patch_edits(patch_path, root):
+    """Turn a unified diff into (file, new-text, old-text) edits, i.e. *revert* it by
+    content (hunk line numbers are ignored, so the edit survives unrelated drift)."""
+    import re
+    here = os.path.dirname(os.path.dirname(os.path.dirname(os.path.abspath(__file__))))
+    txt = open(os.path.join(here, patch_path)).read()
+    edits = []
+    cur = None
+    for block in re.split(r"(?m)^(?=--- a/)", txt):
+        m = re.match(r"--- a/(\S+)\n\+\+\+ b/(\S+)\n", block)
+        if not m:
+            continue
+        rel = m.group(2)
+        for hunk in re.split(r"(?m)^@@ .*\n", block[m.end():])[1:]:
+            old, new = [], []
+            for line in hunk.split("\n"):
+                if line.startswith("+"):
+                    new.append(line[1:])
+                elif line.startswith("-"):
+                    old.append(line[1:])
+                elif line.startswith(" "):
+                    old.append(line[1:]); new.append(line[1:])
+                elif line == "":
+                    pass
+            # strip identical leading/trailing context to one line each side (keeps anchors unique but small)
+            edits.append((rel, "\n".join(new) + "\n", "\n".join(old) + "\n"))
+    return edits
+
+
+def _edits(v, root="/repo"):
+    if "revert_patch" in v:
+        return reverse_patch_edits(v["revert_patch"], root)
     if "edits" in v:
         return v["edits"]
     return [(v["file"], v["old"], v["new"])]
@@ -43,7 +74,7 @@ def _edits(v):
 def run_one(task):
     prop, kind, v, root = task
     overlay = {}
-    for rel, old, new in _edits(v):
+    for rel, old, new in _edits(v, root):
         path = os.path.join(root, rel)
         try:
             src = overlay.get(rel) or open(path, encoding="utf-8").read()
